@@ -17,6 +17,22 @@ pub fn parse<'a>(buf: &'a [u8]) -> Result<simple_dns::Result<Packet<'a>>, Fail> 
     lib("Packet::parse", || Packet::parse(buf))
 }
 
+/// For checks whose statement only speaks about inputs the parser accepted: a refusal makes no claim, and neither
+/// does a panic (or stall, or heap excess) inside the parser itself — that is C01's statement, not theirs.
+pub fn parse_if_accepted<'a>(buf: &'a [u8], case: &mut Case) -> Option<Packet<'a>> {
+    match parse(buf) {
+        Ok(Ok(p)) => Some(p),
+        Ok(Err(_)) => {
+            case.class("rejected");
+            None
+        }
+        Err(_) => {
+            case.class("parser-did-not-return-cleanly:no-claim-here");
+            None
+        }
+    }
+}
+
 /// split the work of an enumeration over shards
 pub fn mine(i: usize, shard: usize, nshards: usize) -> bool {
     i % nshards == shard
